@@ -56,3 +56,19 @@ Theorem C08_rolling_power_is_minus_lambda_verr XF XB VF VB XFP pO r lam :
   - (fst lam * fst (sopr_verr ROps XF XB VF VB XFP pO r) + snd lam * snd (sopr_verr ROps XF XB VF VB XFP pO r)).
 Proof. exact (rolling_power_is_minus_lambda_verr XF XB VF VB XFP pO r lam). Qed.
 Print Assumptions C08_rolling_power_is_minus_lambda_verr.
+
+Theorem C08_disabled_after_is_last_request default requests : disabled_after default requests = last requests default.
+Proof. exact (disabled_after_is_last_request default requests). Qed.
+Print Assumptions C08_disabled_after_is_last_request.
+
+Theorem C08_disabled_after_snoc default requests r : disabled_after default (requests ++ [r]) = r.
+Proof. exact (disabled_after_snoc default requests r). Qed.
+Print Assumptions C08_disabled_after_snoc.
+
+Theorem C08_disable_then_enable_is_enabled default requests : disabled_after default (requests ++ [true; false]) = false.
+Proof. exact (disable_then_enable_is_enabled default requests). Qed.
+Print Assumptions C08_disable_then_enable_is_enabled.
+
+Theorem C08_enable_then_disable_is_disabled default requests : disabled_after default (requests ++ [false; true]) = true.
+Proof. exact (enable_then_disable_is_disabled default requests). Qed.
+Print Assumptions C08_enable_then_disable_is_disabled.
